@@ -106,6 +106,11 @@ def oracle(case, rr):
             # `false` by reauthorize (its error is not repeated in the diagnostics): false ~ err there
             if a != b and not (pst.get(i, "").startswith("err:") and a == "false" and b == "err"):
                 bad.append(("policy outcome under reauthorize differs from scratch", "sigma#%d policy %s: %s vs %s" % (k, i, a, b)))
+        # Expr::substitute(sigma) on each residual, evaluated concretely, agrees with the policy from scratch
+        for i, st in sub.get("subst_eval", {}).items():
+            if status_class(st) != status_class(sc["status"].get(i, "?")):
+                bad.append(("residual with the substitution applied (Expr::substitute) evaluates differently from the policy from scratch",
+                            "sigma#%d policy %s: %s vs %s" % (k, i, st, sc["status"].get(i))))
         if rr["decision"] is not None and rr["decision"] != sc["decision"]:
             bad.append(("definite partial decision contradicted by a substitution", "sigma#%d partial=%s scratch=%s" % (k, rr["decision"], sc["decision"])))
         if not set(rr["must"]) <= set(sc["reasons"]):
